@@ -11,6 +11,7 @@ package c18
 
 import (
 	"fmt"
+	"os"
 	"path/filepath"
 	"time"
 
@@ -43,6 +44,11 @@ type rpcPlan struct {
 	// it reads the stream - a sync.RWMutex wait is not durable in a synctest
 	// bubble, so simulated time (the stream's latency timers) could not pass.
 	PreCreate bool
+	// Again: after a verified copy the source goes on (the drawn steps, with
+	// deletes that leave tombstones beside files the destination already
+	// holds under the same names) and the shard is copied once more onto the
+	// same destination - a refresh, or a second attempt by an operator
+	Again []rpcStep
 }
 
 func genRPC(t *rapid.T) *rpcPlan {
@@ -63,6 +69,16 @@ func genRPC(t *rapid.T) *rpcPlan {
 		p.K = p.K / 512 * 512 // tar block boundaries
 	}
 	p.PreCreate = rapid.Bool().Draw(t, "rpc.precreate") || p.Fault == "slow"
+	if rapid.IntRange(0, 2).Draw(t, "rpc.again") == 0 {
+		for i, n := 0, rapid.IntRange(1, 3).Draw(t, "rpc.nagain"); i < n; i++ {
+			l := fmt.Sprintf("rpc.a%d", i)
+			st := rpcStep{Batch: storesim.GenBatch(t, 4, l), Op: rapid.SampledFrom([]string{"delete", "delete", "none", "snapshot"}).Draw(t, l+".op")}
+			if st.Op == "delete" {
+				st.Cond = rapid.SampledFrom([]string{"a = 'x'", "b = 'p'", "a = 'y' AND b = 'q'", "time >= 0 AND time <= 20"}).Draw(t, l+".cond")
+			}
+			p.Again = append(p.Again, st)
+		}
+	}
 	return p
 }
 
@@ -216,6 +232,69 @@ func execRPC(run *core.Run, p *rpcPlan) {
 	if p.Fault != "none" {
 		run.Probe("rpc-copy-verified-under-fault")
 	}
+	if len(p.Again) > 0 && fault != "noshard" {
+		fault, closes = "none", 0
+		for i, st := range p.Again {
+			if err := src.Sim.Write(id, st.Batch); err != nil {
+				run.Logf("again step%d write: %v", i, err)
+			}
+			run.Logf("again step%d: write %v then %s %s", i, st.Batch, st.Op, st.Cond)
+			switch st.Op {
+			case "snapshot":
+				src.Sim.Snapshot(id)
+			case "delete":
+				if err := src.Sim.DeleteWhere(nil, st.Cond); err != nil {
+					run.Logf("again step%d delete %q: %v", i, st.Cond, err)
+				}
+			}
+		}
+		obsSrc2, err := src.Sim.ReadIterators(id, storesim.FullRange, nil)
+		if err != nil {
+			run.Fail("read-error", "", "source: %v", err)
+			return
+		}
+		again := make(chan error, 1)
+		go func() {
+			again <- coordinator.NewClient(nil, 30*time.Second).CopyShard(clustersim.Addr(2), clustersim.Addr(1), storesim.DB, storesim.RP, shard, time.Time{})
+		}()
+		select {
+		case cerr = <-again:
+		case <-time.After(10 * time.Minute):
+			run.Fail("copy-never-returns", "", "the second copy-shard request did not return within 10 simulated minutes")
+			return
+		}
+		run.Logf("second copy-shard onto the same destination -> %v (source files %v, destination files %v)", cerr, tsmFiles(src.Sim.Root, id), tsmFiles(dst.Sim.Root, id))
+		if cerr != nil {
+			run.Fail("copy-retry-refused", "rpc-again", "a second copy of the shard onto a destination that already holds an earlier copy fails over a healthy network: %v", cerr)
+			return
+		}
+		obsDst2, err := dst.Sim.ReadIterators(id, storesim.FullRange, nil)
+		if err != nil {
+			run.Fail("read-error", "", "destination after the second copy: %v", err)
+			return
+		}
+		if mm := storesim.CompareExact(storesim.FromObserved(obsSrc2, nil), obsDst2, storesim.FullRange, "iterators"); mm != nil {
+			run.Fail("copy-differs-from-source", "rpc-again", "the shard was copied, changed on the source (writes, deletes) and copied again onto the same destination; the second copy was reported as successful but the destination differs from the source: %s", mm.Detail)
+			return
+		}
+		if mm := storesim.CompareExact(storesim.FromObserved(obsDst2, nil), obsSrc2, storesim.FullRange, "iterators"); mm != nil {
+			run.Fail("copy-differs-from-source", "rpc-again", "after the second copy the destination holds data the source does not (deleted on the source in between?): %s", mm.Detail)
+			return
+		}
+		run.Probe("rpc-copy-again-verified")
+	}
 	run.NonTrivial = true
 	run.Digest = fmt.Sprintf("rpc/%s/%d", p.Fault, len(p.Steps))
+}
+
+func tsmFiles(root string, id uint64) []string {
+	var out []string
+	ents, _ := os.ReadDir(filepath.Join(root, "data", storesim.DB, storesim.RP, fmt.Sprint(id)))
+	for _, e := range ents {
+		if !e.IsDir() {
+			fi, _ := e.Info()
+			out = append(out, fmt.Sprintf("%s(%d)", e.Name(), fi.Size()))
+		}
+	}
+	return out
 }
